@@ -20,6 +20,7 @@ import (
 	"encoding/json"
 	"fmt"
 	"path/filepath"
+	"strings"
 	"sync/atomic"
 	"testing"
 	"time"
@@ -138,7 +139,44 @@ type c01DID struct {
 
 func (f *c01Fixture) newDID(x *h.Ctx) *c01DID {
 	n := f.seq.Add(1)
-	return &c01DID{f: f, DID: did.MustParseDID(fmt.Sprintf("did:nuts:c01x%d", n))}
+	// the trailing letter keeps every near-miss name derived from a DID (prefix, suffix, extra segment) unused by other cases
+	return &c01DID{f: f, DID: did.MustParseDID(fmt.Sprintf("did:nuts:c01x%dq", n))}
+}
+
+// c01NearMissVariants: how a foreign signer's DID is derived from the DID it tries to pass for.
+var c01NearMissVariants = []string{"path", "host-suffix", "suffix", "prefix", "case"}
+
+// newNearMiss creates another, resolvable DID document with its own working key whose DID differs from victim's only by
+// an appended path segment / host suffix / plain suffix, by being a proper prefix, or by letter case.
+func (f *c01Fixture) newNearMiss(x *h.Ctx, victim *c01DID, variant string, at time.Time) *c01DID {
+	base := victim.DID.String()
+	name := ""
+	switch variant {
+	case "path":
+		name = base + ":iam:mallory"
+	case "host-suffix":
+		name = base + ".evil.example"
+	case "suffix":
+		name = base + "evil"
+	case "prefix":
+		name = base[:len(base)-1]
+	case "case":
+		name = strings.Replace(base, "did:nuts:c01x", "did:nuts:C01X", 1)
+	default:
+		x.Fatalf("unknown near-miss variant %q", variant)
+	}
+	d := &c01DID{f: f, DID: did.MustParseDID(name)}
+	d.newKey(x)
+	d.publish(x, at, []int{0}, false)
+	return d
+}
+
+// forgedKID registers a fresh private key in the key store under an arbitrary key id (which then ends up in the kid header /
+// verificationMethod of whatever is signed with it).
+func (f *c01Fixture) forgedKID(x *h.Ctx, kid string) string {
+	_, _, err := f.keyStore.New(audit.TestContext(), nutsCrypto.StringNamingFunc(kid))
+	x.NoErr(err, "new key")
+	return kid
 }
 
 func (d *c01DID) newKey(x *h.Ctx) int {
